@@ -322,6 +322,73 @@ class DScore1(_Case):
         return res
 
 
+class Cvm(_Case):
+    """metrics.cramer_von_mises_test on symbolic data in (0, 1): statistic = textbook formula whatever the order, p-value in [0, 1]
+    (np.sort forks on every comparison, np.interp on the 500-row table forks by bisection)"""
+    prop = 'C10'
+    time_budget = {'quick': 150, 'thorough': 900}
+    max_paths = 6000
+
+    def __init__(self, n, tail=None):
+        self.n, self.tail = n, tail
+        self.name = 'cvm:n%d%s' % (n, ':stat>=%g' % tail if tail is not None else '')
+        self.params = dict(n=n, tail=tail)
+        self.functions = ['hydrodiy.stat.metrics.cramer_von_mises_test']
+
+    def modules(self):
+        from hydrodiy.stat import metrics
+        return [metrics]
+
+    def inputs(self):
+        xs = []
+        for i in range(self.n):
+            v = _SR(_z3.Real('u%d' % i))
+            _assume(_z3.And(v.e > 0, v.e < 1))
+            xs.append(v)
+        if self.tail is not None:
+            # slice of the input space that reaches the upper end of the p-value table: ascending data, large statistic
+            for a, b in zip(xs, xs[1:]):
+                _assume(a.e <= b.e)
+            n = self.n
+            st = _z3.RealVal(1) / (12 * n) + sum(((_z3.RealVal(2 * i + 1) / (2 * n)) - xs[i].e) * ((_z3.RealVal(2 * i + 1) / (2 * n)) - xs[i].e) for i in range(n))
+            _assume(st >= _q(self.tail))
+        return dict(x=xs)
+
+    def run(self, I):
+        from hydrodiy.stat import metrics
+        sym = isinstance(I['x'][0], _SR)
+        data = _core.symarray(I['x']) if sym else _np.array(I['x'], dtype=float)
+        stat, p = metrics.cramer_von_mises_test(data)
+        unw = lambda v: v.item() if isinstance(v, _np.ndarray) and v.ndim == 0 else v
+        return dict(stat=unw(stat), p=unw(p))
+
+    def spec(self, I, O, err):
+        res = [('no-exception', err is None)]
+        if err is not None:
+            return res
+        xs, n = I['x'], self.n
+        stat, p = O['stat'], O['p']
+        sym = any(isinstance(v, _SR) for v in xs)
+        if not sym:
+            srt = sorted(float(v) for v in xs)
+            want = 1. / 12 / n + sum(((2 * i + 1) / 2. / n - srt[i]) ** 2 for i in range(n))
+            res.append(('statistic=textbook-formula', _close(float(stat), want, 1e-9)))
+            res.append(('p-value-in-[0,1]', 0.0 <= float(p) <= 1.0))
+            return res
+        # symbolic: one conjunct per permutation that sorts the data (a disjunction over the n! orders, each guarded by its ordering condition)
+        import itertools
+        opts = []
+        for perm in itertools.permutations(range(n)):
+            guard = _z3.And(*[xs[perm[i]].e <= xs[perm[i + 1]].e for i in range(n - 1)]) if n > 1 else _z3.BoolVal(True)
+            want = _z3.RealVal(1) / (12 * n) + sum(((_z3.RealVal(2 * i + 1) / (2 * n)) - xs[perm[i]].e) * ((_z3.RealVal(2 * i + 1) / (2 * n)) - xs[perm[i]].e) for i in range(n))
+            st = stat.e if isinstance(stat, _SR) else _core.term(stat)
+            # the code folds the plotting positions (2i-1)/(2n) and 1/(12n) in float arithmetic: equality up to 1e-12
+            opts.append(_z3.Implies(guard, _z3.And(st - want <= _q(1e-12), want - st <= _q(1e-12))))
+        res.append(('statistic=textbook-formula', _core.sb(_z3.And(*opts))))
+        res.append(('p-value-in-[0,1]', ((p >= 0) & (p <= 1)) if isinstance(p, _SR) else (0.0 <= float(p) <= 1.0)))
+        return res
+
+
 def _impl(a, b):
     if isinstance(a, (bool, _np.bool_)):
         return b if a else True
@@ -333,6 +400,7 @@ def _impl(a, b):
 def cases(tier):
     out = [Pit(1, 1), Pit(1, 2), Pit(2, 2)] + ([Pit(2, 3), Pit(3, 2)] if tier == 'thorough' else [])
     out += [DScore1(2), DScore1(3)] + ([DScore1(4)] if tier == 'thorough' else [])
+    out += [Cvm(1), Cvm(2), Cvm(4, tail=0.98)] + ([Cvm(3), Cvm(5, tail=1.0)] if tier == 'thorough' else [])
     return out
 
 
